@@ -7,11 +7,11 @@ Require Import A1 D3 D4 D5 D6 D14 D9 D10 D12 D13 D16r.
 Import ListNotations.
 
 (* an alternative that the possibility parser refuses: name, optional qualifier, then text T on which the clause
-   loop ends in an error (T starts with a blank: see the class lemmas of D16r, D17r, D18r) *)
+   loop ends in an error (T starts with a blank or, with no blank at all, with '(' '[' '<': see the class lemmas of D16r, D17r, D18r) *)
 Definition bad_alt (B : str) : Prop := exists name q T, B = name ++ qual_text q ++ T /\
   name <> [] /\ forallb namec name = true /\ eqc (peek name) 36 = false /\
   (match q with None => True | Some a => forallb mac (arch_string a) = true /\ parse_arch (arch_string a) = a /\ arch_ok (arch_string a) = true end) /\
-  is_ws (peek T) = true /\ evRes (fun f => controllers f (base name q) T) Err.
+  ctlhead (peek T) = true /\ evRes (fun f => controllers f (base name q) T) Err.
 
 Lemma bad_alt_head B : bad_alt B -> is_ws (peek B) = false /\ eqc (peek B) 0 = false /\ eqc (peek B) 44 = false /\ eqc (peek B) 124 = false.
 Proof.
@@ -75,10 +75,10 @@ Proof.
   intros W. constructor.
   - intros rel d we rest' r Hwe St (f2&H2).
     destruct (possi_head_facts p (we ++ rest') (or_intror W)) as (C0&C44&C124).
+    assert (Ee : eat_ws (we ++ rest') = rest').
+    { rewrite (eat_ws_app we rest' Hwe). apply eat_ws_id. unfold headok. now apply stop3_not_ws. }
     exists (S (S (S f2))). intros [|[|[|f]]] Hf; try lia. rewrite relation_loop_S, C0, C44, C124. cbn [orb].
-    rewrite (subst_render p rel (we ++ rest') W). destruct we as [|c we'].
-    + cbn [app]. apply H2. lia.
-    + rewrite relation_skip_ws; [apply H2; lia|exact Hwe|discriminate|exact St].
+    rewrite (subst_render p rel (we ++ rest') W) by (now rewrite Ee). rewrite Ee. apply H2. lia.
   - destruct (possi_string_cons p (or_intror W)) as (c&t&E). exists c, t. split; [exact E|].
     pose proof (possi_string_headok p [] (or_intror W)) as Hh. destruct (possi_head_facts p [] (or_intror W)) as (A&B&C).
     rewrite app_nil_r in *. unfold headok in Hh. rewrite E in *. cbn [peek] in *. auto.
